@@ -3,7 +3,8 @@
 EXTENDS Bitcask
 
 MCKLen == [k \in Keys |-> 1]
-MCVLen == [v \in Vals |-> IF v = "v0" THEN 0 ELSE 1]
+\* "vB" is a value above the write buffer: its record reaches the file in two write(2) calls (26 + 9000 bytes)
+MCVLen == [v \in Vals |-> IF v = "v0" THEN 0 ELSE IF v = "vB" THEN 9000 ELSE 1]
 
 Big == 1000000
 \* thresholds: all files / fragmented only (> 1/2) / dead bytes only (> 20) / nothing
@@ -26,6 +27,13 @@ MCConfigsFs == {Mk(mf, "none", th) : mf \in {0, 60}, th \in {ThAll, ThFrag}}
 \* deeper generation for the crash / power scopes: an older, mostly-live file below an eligible one
 MCConfigsDeep == {Mk(60, "none", ThFrag), Mk(26, "none", ThDead)}
 MCConfigsDeepSync == {Mk(60, "always", ThFrag), Mk(26, "always", ThDead)}
+
+\* scope with a record above the write buffer ("vB"): file sizes below one big record / between one and two / unbounded
+MCConfigsBig == {Mk(mf, "none", th) : mf \in {60, 10000, Big}, th \in {ThAll, ThFrag, ThDead}}
+MCConfigsBigSync == {Mk(mf, "always", th) : mf \in {60, 10000}, th \in {ThAll, ThFrag}}
+
+\* one configuration: one file for everything, every merge takes every file
+MCConfigsOneAll == {Mk(Big, "none", ThAll)}
 
 OpsBound == nops <= MaxOps
 ==============================================================================
